@@ -122,36 +122,40 @@ def _random_case(rng):
 
 
 # ------------------------------------------------------------------ judging
-def _judge_all(rep, cases, label, devs, want_infrag):
-    """Run the real command on every case and let TLC judge.  Returns counters."""
+def _judge_all(rep, groups, devs):
+    """groups: [(label, cases, must_be_in_fragment)].  Runs the real command on every case and lets TLC
+    judge all observations in one sharded oracle pass.  Returns {label: counters}."""
+    cases = [c for _, cs, _ in groups for c in cs]
     obs = drv.run_cases(cases)
     batch = [dict(id=i, case=c, obs={k: o[k] for k in ("exit", "calls", "why", "locs", "oks")},
                   devs=sorted(devs)) for i, (c, o) in enumerate(zip(cases, obs))]
     res, st = tlc.oracle("EvalCli", batch)
-    rep.add_oracle(f"EvalCli[{label}]", st)
-    counts = dict(cases=len(cases), judged=0, outside_fragment=0)
-    bad = []
-    for i, (c, o) in enumerate(zip(cases, obs)):
-        r = res[i]
-        if not r["infrag"]:
-            if want_infrag:
-                raise tlc.MachineryError(f"TLC enumerated a case outside the fragment: {show(c)}")
-            counts["outside_fragment"] += 1
-            continue
-        counts["judged"] += 1
-        if r["ok"]:
-            rep.passed(show(c), nontrivial=nontrivial(c))
-        elif r["okdev"] and r["okdev"][0] in devs:
-            rep.known_finding(devs[r["okdev"][0]], show(c))
-        else:
-            bad.append((c, o, r))
+    rep.add_oracle("EvalCli[" + "+".join(g[0] for g in groups) + "]", st)
+    out, bad, i = {}, [], 0
+    for label, cs, must in groups:
+        counts = out[label] = dict(cases=len(cs), judged=0, outside_fragment=0)
+        for c in cs:
+            o, r = obs[i], res[i]
+            i += 1
+            if not r["infrag"]:
+                if must:
+                    raise tlc.MachineryError(f"TLC enumerated a case outside the fragment: {show(c)}")
+                counts["outside_fragment"] += 1
+                continue
+            counts["judged"] += 1
+            if r["ok"]:
+                rep.passed(show(c), nontrivial=nontrivial(c))
+            elif r["okdev"] and r["okdev"][0] in devs:
+                rep.known_finding(devs[r["okdev"][0]], show(c))
+            else:
+                bad.append((c, o, r))
     for k, (c, o, r) in enumerate(bad):
         if k < 2:
             c, o, r = _shrink(c, o, r, devs)
         rep.violation(dict(case=c, shown=show(c), observed=show_obs(o), expected=show_exp(r["exp"])),
                       f"textx {' '.join(o['argv'])!r} (declared={show(c)['declared']}): observed {show_obs(o)} "
                       f"but Cli.tla prescribes {show_exp(r['exp'])}")
-    return counts
+    return out
 
 
 def _shrink(case, obs, res, devs):
@@ -207,7 +211,8 @@ def run(rep):
     # (M) and the emission of every case run side by side (separate TLC processes)
     with ThreadPoolExecutor(max_workers=max(1, min(5, tlc.NCPU))) as ex:
         fm = ex.submit(_mc, size)
-        fe = [ex.submit(_emit, size, d) for d in range(4)]
+        # quick: one emitting process; thorough: one per generator declaration
+        fe = [ex.submit(_emit, size, d) for d in (["all"] if quick else range(4))]
         mc = fm.result()
         emitted = [f.result() for f in fe]
     tlc.require_ok(mc, "MC_Cli")
@@ -217,17 +222,15 @@ def run(rep):
         cases += cs
     if 2 * len(cases) != mc.distinct:      # (M) has two states per case: before and after the run
         raise tlc.MachineryError(f"emitted {len(cases)} cases but the model checker saw {mc.distinct} states")
-    rep.extra["tlc_emission"] = dict(runs=4, cases=len(cases), wall_s=round(max(r.wall_s for r, _ in emitted), 2),
+    rep.extra["tlc_emission"] = dict(runs=len(emitted), cases=len(cases), wall_s=round(max(r.wall_s for r, _ in emitted), 2),
                                      cmd=emitted[0][0].cmd)
     cases.sort(key=common.canon)
-    c1 = _judge_all(rep, cases, "universe", devs, want_infrag=True)
-    rep.bounds["universe"] = dict(size=size, **c1)
-    rep.exhaustive = True
-
     nrand = 3000 if quick else 40000
     rcases = [_random_case(rng) for _ in range(nrand)]
-    c2 = _judge_all(rep, rcases, "random", devs, want_infrag=False)
-    rep.bounds["random"] = dict(**c2, max_tokens=17)
+    counts = _judge_all(rep, [("universe", cases, True), ("random", rcases, False)], devs)
+    rep.bounds["universe"] = dict(size=size, **counts["universe"])
+    rep.bounds["random"] = dict(**counts["random"], max_tokens=17)
+    rep.exhaustive = True
     if not quick:
         # the module is not vacuous: with the deviation switched on TLC reports the clause violated
         r = tlc.model_check("MC_Cli", cfg="MC_Cli_DevBare.cfg", env={"VT_DECL": "all", "VT_SIZE": "quick"},
